@@ -50,6 +50,13 @@ EXPLANATION = (
     "identifiers. Scale invariance and raw == pre-normalised are algebraic "
     "facts and are not decided.")
 
+EXPLANATION += (
+    ' Added after the seeded rounds: no ordering step towards the '
+    "marker cache's per-parent arrays has a key depending on query "
+    'positions; the array normalised in the chunk loops has not been '
+    'cut by column.'
+)
+
 RULE_TEXT = (
     "one obligation per dominance / typestate / provenance relation named "
     "above")
